@@ -1,25 +1,56 @@
-(** C07 — dependency cycles are detected, exactly.  (the cycle enumerator of the runtime library — gonum — is modelled by
-    [all_cycles]; Proofs/GraphProofs.v and, for the lift to names, Proofs/DepGraphProofs.v) *)
-From GV Require Import Base.Str Model.OutVal Proofs.GraphProofs.
+(** C07 — dependency cycles are detected, exactly.  gonum's elementary-cycle enumeration is modelled by [all_cycles]
+    (validated against the real library by the correspondence runs). *)
+From GV Require Import Base.Str Base.Gerr Model.Compile Model.OutVal Proofs.GraphProofs Proofs.DepGraphProofs.
 
-(** the enumeration lists exactly the elementary cycles (rooted at their smallest node) of the graph *)
-Theorem C07_cycles_exact : forall g c, wf_graph g -> (In c (all_cycles g) <-> is_cycle g c).
-Proof. intros g c H. apply all_cycles_iff. exact H. Qed.
-Print Assumptions C07_cycles_exact.
+(** accepted by the cycle rule iff neither the service dependency relation nor the parameter reference relation has a cycle *)
+Theorem C07_accept_iff_acyclic :
+  forall o : output,
+         validate_circular o = None <->
+         (forall a : str, ~ Relation_Operators.clos_trans str (svc_dep o) a a) /\
+         (forall p : str, ~ Relation_Operators.clos_trans str (param_dep o) p p).
+Proof. exact (@validate_circular_documented). Qed.
+Print Assumptions C07_accept_iff_acyclic.
 
-(** no cycle is reported iff the dependency graph is acyclic: accepted only if acyclic, never rejected when acyclic *)
-Theorem C07_nil_iff_acyclic : forall g, wf_graph g -> (all_cycles g = [] <-> forall a, ~ path g a a).
-Proof. exact all_cycles_nil_iff_acyclic. Qed.
-Print Assumptions C07_nil_iff_acyclic.
+(** the same on the built graph (tags, decorators, parameters included) *)
+Theorem C07_accept_iff_no_closed_walk :
+  forall o : output, validate_circular o = None <-> (forall x : str, ~ spath (dep_calls o) x x).
+Proof. exact (@validate_circular_none). Qed.
+Print Assumptions C07_accept_iff_no_closed_walk.
 
-(** every element lying on a cycle is shown by some reported cycle *)
-Theorem C07_every_element_shown : forall g a, wf_graph g -> (path g a a <-> exists c, In c (all_cycles g) /\ In a c).
-Proof. exact on_cycle_iff. Qed.
+(** every element lying on a cycle occurs in a printed cycle *)
+Theorem C07_every_element_shown :
+  forall (o : output) (x : str),
+         spath (dep_calls o) x x ->
+         exists ids : list str, In x ids /\ In (join (s " -> ") (map pretty ids)) (cycle_errors o).
+Proof. exact (@cycle_error_shown). Qed.
 Print Assumptions C07_every_element_shown.
 
-(** transitive dependencies (used by the scope rule and by the termination argument): computed reachability = paths *)
-Theorem C07_reachability : forall g a b, wf_graph g -> (In b (reachable_from g a) <-> path g a b).
-Proof. exact reachable_from_iff. Qed.
+(** every printed cycle consists of elements that really lie on a cycle *)
+Theorem C07_no_false_cycle :
+  forall (o : output) (m : str),
+         In m (cycle_errors o) ->
+         exists ids : list str,
+           m = join (s " -> ") (map pretty ids) /\
+           ids <> [] /\ (forall x : str, In x ids -> spath (dep_calls o) x x).
+Proof. exact (@cycle_error_sound). Qed.
+Print Assumptions C07_no_false_cycle.
+
+(** the enumeration lists exactly the elementary cycles rooted at their smallest node *)
+Theorem C07_cycles_exact :
+  forall (g : graph) (c : list nat), wf_graph g -> In c (all_cycles g) <-> is_cycle g c.
+Proof. exact (@all_cycles_iff). Qed.
+Print Assumptions C07_cycles_exact.
+
+(** no cycle listed iff the graph is acyclic *)
+Theorem C07_nil_iff_acyclic :
+  forall g : graph, wf_graph g -> all_cycles g = [] <-> (forall a : nat, ~ path g a a).
+Proof. exact (@all_cycles_nil_iff_acyclic). Qed.
+Print Assumptions C07_nil_iff_acyclic.
+
+(** computed reachability = non-empty paths *)
+Theorem C07_reachability :
+  forall (g : graph) (a b : nat), wf_graph g -> In b (reachable_from g a) <-> path g a b.
+Proof. exact (@reachable_from_iff). Qed.
 Print Assumptions C07_reachability.
 
 Example C07_ex_cycle :
